@@ -18,7 +18,7 @@ From Coq Require Import ZArith List String Bool.
 From LV Require Import Base.Conc Base.Events Base.Lin Spec.Specs
      Model.StripingPolicy Model.StripedConc Proofs.StripedConcSpec Proofs.StripedConcProofs
      Proofs.StripedConcRefInv Proofs.StripedConcRefProofs.
-From LV Require Model.CuckooConc Proofs.CuckooConcInv Proofs.CuckooConcProofs.
+From LV Require Model.CuckooConc Proofs.CuckooConcInv Proofs.CuckooConcProofs Proofs.CuckooConcRefInv Proofs.CuckooConcRefProofs.
 Import ListNotations.
 Local Open Scope nat_scope.
 
@@ -172,3 +172,79 @@ Proof.
   split; [apply CuckooConcProofs.no_drop_events; vm_compute; reflexivity|vm_compute; reflexivity].
 Qed.
 
+(** ** CuckooSet, refinable policy (cuckoo::refinable<>): the lock / ownership protocol *)
+
+(** [cuckoo_refinable_owner_excludes]: for every schedule of the whole CuckooSet model with the refinable policy
+    (insert / update / erase / unlink / find, relocation, resize with replacement of the lock arrays), at every
+    reachable configuration there is an assignment [a] of (multi)sets of reentrant cell locks and of protocol
+    states to the threads ([w_own]: no owner state / owner word taken / owner with cells 0..j-1 of table 0 of the
+    arrays of generation g0 locked / owner that has installed new arrays; [w_anc a t = Some (gen, i)]: thread t has
+    returned from acquire() with cell i of table 0 of generation gen: owner word free or its own, and capacity
+    unchanged, both read after the cell was locked) such that
+    - a lock word is non-zero iff some thread has the lock, and no two threads have the same lock;
+    - the owner word names the only thread in an owner state;
+    - m_nCapacity is the size of the current lock arrays;
+    - a validated cell is held, belongs to the _current_ lock arrays, and no other thread is the exclusive owner
+      (all cells locked, or new arrays installed);
+    - an owner scanning generation g0 scans the current arrays and has the cells it passed; an owner that has
+      installed new arrays still has every table-0 cell of the old ones.
+    The seeded change C16a (acquire() returns without re-reading the capacity) breaks the fourth clause. *)
+Theorem C16_cuckoo_refinable_owner_excludes :
+  forall cf, CuckooConc.c_pol cf = CuckooConc.Refinable -> 0 < CuckooConc.c_nl cf ->
+  forall ths (c : Conc.config CuckooConc.G CuckooConc.V ev), Conc.reach (CuckooConc.init_cfg cf ths) c ->
+    exists a : CuckooConcRefInv.RAux,
+      let g := Conc.shared c in
+      (forall l, CuckooConc.rspin g l <> 0 <-> exists t, In l (CuckooConcRefInv.w_held (a t))) /\
+      (forall t t' l, In l (CuckooConcRefInv.w_held (a t)) -> In l (CuckooConcRefInv.w_held (a t')) -> t = t') /\
+      (forall t, CuckooConcRefInv.w_own (a t) <> CuckooConcRefInv.ONone -> CuckooConc.owner g = 2 * S t + 1) /\
+      (CuckooConc.owner g = 0 -> forall t, CuckooConcRefInv.w_own (a t) = CuckooConcRefInv.ONone) /\
+      CuckooConc.pcap g = CuckooConc.gsize g (CuckooConc.cur g) /\
+      (forall t gen i, CuckooConcRefInv.w_anc (a t) = Some (gen, i) ->
+          In (gen, 0, i) (CuckooConcRefInv.w_held (a t)) /\ gen = CuckooConc.cur g /\ i < CuckooConc.pcap g /\
+          forall R, R <> t -> ~ CuckooConcRefInv.exclusive (CuckooConcRefInv.w_own (a R))) /\
+      (forall t g0 sz j, CuckooConcRefInv.w_own (a t) = CuckooConcRefInv.OLk g0 sz j ->
+          g0 = CuckooConc.cur g /\ sz = CuckooConc.pcap g /\ j <= sz /\
+          forall i, i < j -> In (g0, 0, i) (CuckooConcRefInv.w_held (a t))) /\
+      (forall t g0 sz n b, CuckooConcRefInv.w_own (a t) = CuckooConcRefInv.OIn g0 sz n b ->
+          g0 < CuckooConc.cur g /\ n = CuckooConc.pcap g /\
+          forall i, i < sz -> In (g0, 0, i) (CuckooConcRefInv.w_held (a t))).
+Proof. exact CuckooConcRefProofs.cuckoo_refinable_owner_excludes_thm. Qed.
+Print Assumptions C16_cuckoo_refinable_owner_excludes.
+
+(** [cuckoo_refinable_valid_stable]: with such an assignment, a step of another thread neither replaces the lock
+    arrays nor releases the cell a thread has validated, and no other thread is the exclusive owner. *)
+Theorem C16_cuckoo_refinable_valid_stable :
+  forall cf, CuckooConc.c_pol cf = CuckooConc.Refinable -> 0 < CuckooConc.c_nl cf ->
+  forall ths (c : Conc.config CuckooConc.G CuckooConc.V ev), Conc.reach (CuckooConc.init_cfg cf ths) c ->
+    exists a : CuckooConcRefInv.RAux, CuckooConcRefInv.CoreR (Conc.shared c) a /\
+      forall t' c', Conc.step_cfg c t' = Some c' ->
+        forall t gen i, t <> t' -> CuckooConcRefInv.w_anc (a t) = Some (gen, i) ->
+          CuckooConc.cur (Conc.shared c') = CuckooConc.cur (Conc.shared c) /\
+          CuckooConc.rspin (Conc.shared c') (gen, 0, i) <> 0 /\
+          forall R, ~ (CuckooConcRefInv.exclusive (CuckooConcRefInv.w_own (a R)) /\ R <> t).
+Proof. exact CuckooConcRefProofs.cuckoo_refinable_valid_stable_thm. Qed.
+Print Assumptions C16_cuckoo_refinable_valid_stable.
+
+(** [cuckoo_refinable_cs_exclusive]: the critical sections exclude each other.  Authority over probe set (tb, b) —
+    validated by acquire() and holding the cell of the stripe of b in the current lock arrays, or being the
+    exclusive owner — belongs to at most one thread. *)
+Theorem C16_cuckoo_refinable_cs_exclusive :
+  forall cf, CuckooConc.c_pol cf = CuckooConc.Refinable -> 0 < CuckooConc.c_nl cf ->
+  forall ths (c : Conc.config CuckooConc.G CuckooConc.V ev), Conc.reach (CuckooConc.init_cfg cf ths) c ->
+    exists a : CuckooConcRefInv.RAux, CuckooConcRefInv.CoreR (Conc.shared c) a /\
+      forall t t' tb b,
+        CuckooConcRefProofs.cell_auth (Conc.shared c) (a t) tb b ->
+        CuckooConcRefProofs.cell_auth (Conc.shared c) (a t') tb b -> t = t'.
+Proof. exact CuckooConcRefProofs.cuckoo_refinable_cs_exclusive_thm. Qed.
+Print Assumptions C16_cuckoo_refinable_cs_exclusive.
+
+(** non-vacuity: the program of [C16_cuckoo_striping_nonvacuous] under the refinable policy: the resize installs new
+    lock arrays (one store to m_nCapacity) while the other thread is running; all seven operations complete *)
+Example C16_cuckoo_refinable_nonvacuous :
+  let r := CuckooConc.run_case [2; 2; 2; 0; 0; 1; 6; 400]%Z
+             [[[1;0;0;0]%Z; [1;2;0;0]%Z; [1;4;0;0]%Z; [1;6;0;0]%Z; [8;2;0;0]%Z]; [[1;1;0;0]%Z; [8;0;0;0]%Z]]
+             [0;1;1;0;1;0;1]%nat 6000 in
+  snd r = true /\
+  List.length (filter (fun te => match snd te with EvAcc KSt [3%Z] _ => true | _ => false end) (fst r)) = 1 /\
+  List.length (hist_of (fst r)) = 14.
+Proof. vm_compute. repeat split. Qed.
